@@ -144,4 +144,27 @@ def freedBytes : List Ev → List (Nat × List UInt8)
   | .ufree _ a _ u :: rest => (a, u) :: freedBytes rest
   | _ :: rest => freedBytes rest
 
+/-- number of allocations / reallocations that returned memory to the caller -/
+def successes : List Ev → Nat
+  | [] => 0
+  | .ret a :: rest => (if a = 0 then 0 else 1) + successes rest
+  | _ :: rest => successes rest
+
+/-- the period an operation switches to, if it is a period switch (`startChecking`, `stopChecking`, `enable`, `disable`) -/
+def periodSwitch : Op → Option Period
+  | .startChecking => some .checking
+  | .stopChecking => some .enabled
+  | .enable => some .enabled
+  | .disable => some .disabled
+  | _ => none
+
+/-- `increaseAllocationStage()` called `k` times -/
+def increaseStageTimes : Nat → State → State
+  | 0, s => s
+  | k + 1, s => increaseStage (increaseStageTimes k s)
+
+/-- the allocation numbers of the records are pairwise distinct and all below the next number -/
+def NumInv (s : State) : Prop :=
+  (∀ n ∈ s.nodes, n.number < s.seq) ∧ (s.nodes.map (·.number)).Nodup
+
 end LeakDetector
